@@ -270,6 +270,10 @@ class Categorize(Factory, Container):
         q = self.quantity(data)
         if isinstance(q, (list, tuple)):
             q = np.array(q)
+        if isinstance(q, np.ndarray) and q.dtype == object:
+            # a column of strings with missing values (None / NaN): ``fill`` counts them under "NaN"; np.unique below
+            # cannot even sort such a mixture
+            q = np.array(["NaN" if (x is None or (isinstance(x, float) and x != x)) else x for x in q], dtype=object)
         self._checkNPQuantity(q, shape)
 
         if (
